@@ -227,7 +227,7 @@ def main(argv=None):
     inconclusive = []
     counters = {}
     classes = {}
-    nontrivial_keys = set()
+    nontrivial_keys = {}
     samples = []
     observations = {}
     worst = {}
@@ -248,7 +248,7 @@ def main(argv=None):
             if v is not None and (k not in worst or v > worst[k]):
                 worst[k] = v
         if res.get("nontrivial"):
-            nontrivial_keys.add(res.get("key") or spec_hash(spec))
+            nontrivial_keys[res.get("key") or spec_hash(spec)] = int(res.get("nontrivial_n", 1))
         if res.get("sample") is not None and len(samples) < 6:
             samples.append({"case": spec["id"], "spec": {k: v for k, v in spec.items() if k != "id"}, "observed": res["sample"]})
         for v in res.get("violations") or []:
@@ -262,6 +262,8 @@ def main(argv=None):
             inconclusive.append({"case": "*", "reason": f"monitor {name} never evaluated"})
 
     new, seen_known = [], {}
+    if not args.replay:
+        shutil.rmtree(os.path.join(VERIF, "replays", prop), ignore_errors=True)
     os.makedirs(os.path.join(VERIF, "replays", prop), exist_ok=True)
     for spec, v in violations:
         mech = v.get("mechanism")
@@ -302,7 +304,7 @@ def main(argv=None):
             "level": level,
             "coverage": {
                 "evaluations": len(cases),
-                "distinct_nontrivial": len(nontrivial_keys),
+                "distinct_nontrivial": sum(nontrivial_keys.values()),
                 "rule": getattr(mod, "RULE", ""),
                 "samples": samples if samples else [{"note": "no sample produced"}],
                 "monitor_evaluations": counters,
@@ -323,7 +325,7 @@ def main(argv=None):
             f.write(dumps(ev, indent=1))
 
     summary = (
-        f"{prop} tier={tier} seed={args.seed} cases={len(cases)} nontrivial={len(nontrivial_keys)} "
+        f"{prop} tier={tier} seed={args.seed} cases={len(cases)} nontrivial={sum(nontrivial_keys.values())} "
         f"violations={len(reported)} known={sum(len(i) for i in seen_known.values())} "
         f"inconclusive={len(inconclusive)} wall={wall:.1f}s"
     )
